@@ -1,4 +1,4 @@
-import NmlVerif.Model.Introspect
+import NmlVerif.Proofs.Introspect
 import NmlVerif.Gen.Bindings
 import NmlVerif.Gen.Xsd
 import NmlVerif.Gen.Names
@@ -24,49 +24,216 @@ theorem c11_info_eq_checkarg (T : Table) (c kw : Nat) :
     checkArg T c kw = true ↔ kw ∈ (info T c).map (·.1) := by
   simp only [checkArg, info, List.any_eq_true, beq_iff_eq, List.map_map, List.mem_map, Function.comp]
 
-/-! ### get_by_id -/
+/-! ### `parentinfo` as the code returns it (dict with overwrite, list of keys, string) -/
 
-theorem c11_get_sound (r : Bool) (lists : List (List Comp)) (i : String) (c : Comp)
-    (h : getById r lists i = some c) : c.id = i ∧ c.hasId = true ∧ ∃ l ∈ lists, c ∈ l := by
-  unfold getById at h
-  split at h
-  · cases h
-  · have h1 := List.find?_some h
-    have h2 := List.mem_of_find?_eq_some h
-    simp only [Bool.and_eq_true, beq_iff_eq] at h1
-    exact ⟨h1.2, h1.1, List.mem_flatten.mp h2⟩
+/-- **`parentinfo()` in its dict (and string) form is the exact inverse of `info()`**: member name `n` is listed
+    under parent `p` in `parentinfo` of class `c` iff `p` is a class and `info` of `p` has a member called `n` whose
+    type is `c` -/
+theorem c11_parentinfo_dict_inverse (T : Table) (c p n : Nat) :
+    (lookup2 p n (pinfoDict (classMembers T) c)).isSome = true
+      ↔ (∃ k ∈ T, k.name = p) ∧ ∃ m ∈ getMembers T p, m.name = n ∧ m.dtype = c := by
+  constructor
+  · intro h
+    obtain ⟨v, hv⟩ := Option.isSome_iff_exists.mp h
+    rw [pinfoDict_eq] at hv
+    rcases outer_sound _ _ _ _ _ _ hv with h0 | ⟨ms, hm, s, hs, hc, hn, _⟩
+    · simp [lookup2, lookup] at h0
+    · obtain ⟨hk, rfl⟩ := (mem_classMembers T p ms).mp hm
+      exact ⟨hk, s, hs, hn, hc⟩
+  · rintro ⟨hk, m, hm, rfl, hc⟩
+    rw [pinfoDict_eq]
+    exact outer_complete _ _ _ _ _ _ ((mem_classMembers T p _).mpr ⟨hk, rfl⟩) hm hc
 
-theorem c11_get_complete (r : Bool) (lists : List (List Comp)) (i : String) (hi : r = false ∨ i.isEmpty = false)
-    (c : Comp) (l : List Comp) (hl : l ∈ lists) (hc : c ∈ l) (hid : c.hasId = true) (hci : c.id = i) :
-    ∃ d, getById r lists i = some d ∧ d.id = i := by
-  unfold getById
-  have hcond : (r && i.isEmpty) = false := by
-    rcases hi with h | h <;> simp [h]
-  simp only [hcond, Bool.false_eq_true, if_false]
-  have hmem : c ∈ lists.flatten := List.mem_flatten.mpr ⟨l, hl, hc⟩
-  cases hf : lists.flatten.find? (fun c => c.hasId && c.id == i) with
+/-- … and the entry stored there carries the type `c` and the required flag of such a member -/
+theorem c11_parentinfo_dict_value (T : Table) (c p n : Nat) (v : Bool × Nat)
+    (h : lookup2 p n (pinfoDict (classMembers T) c) = some v) :
+    ∃ m ∈ getMembers T p, m.name = n ∧ m.dtype = c ∧ v = (!m.optional, c) := by
+  rw [pinfoDict_eq] at h
+  rcases outer_sound _ _ _ _ _ _ h with h0 | ⟨ms, hm, s, hs, hc, hn, hv⟩
+  · simp [lookup2, lookup] at h0
+  · obtain ⟨_, rfl⟩ := (mem_classMembers T p ms).mp hm
+    exact ⟨s, hs, hn, hc, by rw [hv, hc]⟩
+
+/-- the list form of `parentinfo` is the key list of the dict form, the string form lists the same entries -/
+theorem c11_parentinfo_formats (cm : List (Nat × List Spec)) (c : Nat) :
+    pinfoOut cm c .list = .parents ((pinfoDict cm c).map (·.1))
+    ∧ pinfoOut cm c .dict = .dict (pinfoDict cm c) ∧ pinfoOut cm c .string = .lines (pinfoDict cm c) := ⟨rfl, rfl, rfl⟩
+
+
+/-! ### the three return formats of `info()` speak about the same members -/
+
+/-- **every return format of `info()` reports the same member set** (`return_format` ∈ string / list / dict,
+    `show_contents` on or off): exactly the names of the MemberSpecs `_get_members` gave -/
+theorem c11_info_formats_agree (ms : List Spec) (sc : Bool) (fmt : Fmt) (n : Nat) :
+    n ∈ (infoOut ms sc fmt).memberNames ↔ n ∈ ms.map (·.name) := by
+  cases fmt <;> cases sc <;>
+    simp [infoOut, InfoOut.memberNames, dictOf, keys_foldl_setA, List.map_map, Function.comp_def]
+
+/-- … hence the members `info` reports in ANY format are exactly the keywords `_check_arg_list` accepts -/
+theorem c11_info_formats_eq_checkarg (T : Table) (c : Nat) (sc : Bool) (fmt : Fmt) (kw : Nat) :
+    kw ∈ (infoOut (getMembers T c) sc fmt).memberNames ↔ checkArg T c kw = true := by
+  rw [c11_info_formats_agree, c11_info_eq_checkarg]
+  simp [info, List.map_map, Function.comp_def]
+
+/-- the dict / string forms carry, for every member, the required flag and type of a MemberSpec of that name
+    (string form: every line is a MemberSpec) -/
+theorem c11_info_lines (ms : List Spec) (sc : Bool) :
+    infoOut ms sc .string = .lines (ms.map fun s => (s.name, s.dtype, s.optional)) := by
+  cases sc <;> rfl
+
+/-! ### get_by_id (document and network; the translated bodies compute `getByIdM`, see Props/C11Gen.lean) -/
+
+/-- **soundness**, for every holder object whatsoever (no well-formedness needed), every `warn_count`, every
+    requested id (string or not), repaired or not: a returned component carries the requested id, has an `id`
+    attribute, and sits in one of the lists named by the class's own `member_data_items_` -/
+theorem c11_get_sound (doc k : Bool) (names : List Nat) (vals : List (Nat × MVal)) (wc : Nat) (i : IdVal) (c : Comp)
+    (h : (getByIdM doc k names vals wc i).1 = .ret (some c)) :
+    c.id = i ∧ c.hasId = true ∧ ∃ n ∈ names, ∃ l, lookup n vals = some (.comps l) ∧ c ∈ l := by
+  have key : (afterScan k i wc (scanMembers vals i names [])).1 = .ret (some c) →
+      scanMembers vals i names [] = .found c := by
+    intro hf
+    cases hs : scanMembers vals i names [] with
+    | found d => rw [hs] at hf; simp only [afterScan, GRes.ret.injEq, Option.some.injEq] at hf; rw [hf]
+    | raised e =>
+      rw [hs] at hf
+      rcases scanMembers_raised _ _ _ _ _ hs with rfl | rfl <;> simp [afterScan] at hf
+    | cont ids =>
+      rw [hs] at hf
+      simp only [afterScan] at hf
+      split at hf <;> simp at hf
+  unfold getByIdM at h
+  cases doc
+  · exact scanMembers_found _ _ _ _ _ (key (by simpa using h))
+  · simp only [if_true] at h
+    cases i with
+    | none => simp at h
+    | int n => simp at h
+    | str s =>
+      simp only at h
+      by_cases he : s.isEmpty = true
+      · simp [he] at h
+      · simp only [he, Bool.false_eq_true, if_false] at h
+        exact scanMembers_found _ _ _ _ _ (key h)
+
+/-- the string ids a document accepts (a network accepts every id) -/
+def askable (doc : Bool) (i : IdVal) : Prop := doc = true → ∃ s, i = .str s ∧ s.isEmpty = false
+
+/-- **completeness**: if some component visible to the scan (member lists of the own table, objects having an `id`
+    attribute) carries the requested id, a component carrying it is returned — the FIRST such in scan order; the
+    `warn_count` is untouched.  Holds for ids occurring in several lists, ids `None`/ints on networks, repaired or not -/
+theorem c11_get_complete (doc k : Bool) (names : List Nat) (vals : List (Nat × MVal)) (wc : Nat) (i : IdVal)
+    (hok : holderOK vals names = true) (hask : askable doc i)
+    (c : Comp) (hc : c ∈ visible vals names) (hid : c.id = i) :
+    ∃ d, getByIdM doc k names vals wc i = (.ret (some d), wc) ∧ d.id = i
+      ∧ (visible vals names).find? (fun c => c.id == i) = some d := by
+  have hscan := scanMembers_eq vals i names [] hok
+  cases hf : (visible vals names).find? (fun c => c.id == i) with
   | none =>
-    have := List.find?_eq_none.mp hf c hmem
-    simp [hid, hci] at this
+    have := List.find?_eq_none.mp hf c hc
+    simp [hid] at this
   | some d =>
-    have h1 := List.find?_some hf
-    simp only [Bool.and_eq_true, beq_iff_eq] at h1
-    exact ⟨d, rfl, h1.2⟩
+    have hd : d.id = i := by simpa using List.find?_some hf
+    rw [hf] at hscan
+    refine ⟨d, ?_, hd, rfl⟩
+    unfold getByIdM
+    cases doc
+    · simp [hscan, afterScan]
+    · obtain ⟨s, rfl, hs⟩ := hask rfl
+      simp [hs, hscan, afterScan]
 
-theorem c11_get_none (r : Bool) (lists : List (List Comp)) (i : String)
-    (h : ∀ l ∈ lists, ∀ c ∈ l, c.hasId = true → c.id ≠ i) : getById r lists i = none := by
-  unfold getById
-  split
-  · rfl
-  · apply List.find?_eq_none.mpr
+/-- the FULL "None otherwise" clause: when no visible component carries the (string) id, `None` is returned -/
+def GetNoneFull (k : Bool) : Prop :=
+  ∀ (doc : Bool) (names : List Nat) (vals : List (Nat × MVal)) (wc : Nat) (s : String),
+    holderOK vals names = true → (∀ c ∈ visible vals names, c.id ≠ .str s) →
+      (getByIdM doc k names vals wc (.str s)).1 = .ret none
+
+/-- … holds whenever the ids that were passed over can be sorted for the warning message, or the warning is already
+    suppressed (`warn_count ≥ 10`), or the tree carries the repair (`sorted(all_ids, key=str)`) -/
+theorem c11_get_none_partial (doc k : Bool) (names : List Nat) (vals : List (Nat × MVal)) (wc : Nat) (s : String)
+    (hok : holderOK vals names = true) (hno : ∀ c ∈ visible vals names, c.id ≠ .str s)
+    (hs : k = true ∨ 10 ≤ wc ∨ unsortable ((visible vals names).map (·.id)) = false) :
+    getByIdM doc k names vals wc (.str s) = (.ret none, if doc && s.isEmpty then wc else if wc < 10 then wc + 1 else wc) := by
+  have hscan := scanMembers_eq vals (.str s) names [] hok
+  have hf : (visible vals names).find? (fun c => c.id == .str s) = none := by
+    apply List.find?_eq_none.mpr
     intro c hc
-    obtain ⟨l, hl, hcl⟩ := List.mem_flatten.mp hc
-    by_cases hid : c.hasId = true
-    · simp [hid, h l hl c hcl hid]
-    · simp [hid]
+    simpa using hno c hc
+  rw [hf] at hscan
+  have hw : warnStep k (.str s) ((visible vals names).map (·.id)) wc = some (if wc < 10 then wc + 1 else wc) := by
+    unfold warnStep
+    by_cases h10 : wc < 10
+    · have : ¬ (10 ≤ wc) := by omega
+      rcases hs with rfl | h | h
+      · simp [h10, IdVal.isStr]
+      · exact absurd h this
+      · simp [h10, IdVal.isStr, h]
+    · simp [h10]
+  unfold getByIdM
+  cases doc
+  · simp [hscan, afterScan, hw]
+  · by_cases he : s.isEmpty = true
+    · simp [he]
+    · simp [he, hscan, afterScan, hw]
 
-theorem c11_get_empty_id_document (lists : List (List Comp)) : getById true lists "" = none := by
-  simp [getById]
+/-- with the repair the clause holds in full -/
+theorem c11_get_none_repaired : GetNoneFull true := by
+  intro doc names vals wc s hok hno
+  rw [c11_get_none_partial doc true names vals wc s hok hno (Or.inl rfl)]
+
+/-- TODAY's code violates it: a network with one population whose id is unset (`None`) and one called `"a"`,
+    asked for `"zz"`: `sorted([None, "a"])` raises TypeError instead of `None` being returned -/
+theorem c11_get_none_witness : ¬ GetNoneFull false := by
+  intro h
+  have := h false [7] [(7, .comps [⟨true, .none, 1⟩, ⟨true, .str "a", 2⟩])] 0 "zz" (by decide) (by decide)
+  revert this
+  decide
+
+/-- and the failure is HISTORY dependent: the very same query on the very same network returns `None` once ten
+    earlier misses have switched the warning off -/
+theorem c11_get_none_witness_history :
+    (getByIdM false false [7] [(7, .comps [⟨true, .none, 1⟩, ⟨true, .str "a", 2⟩])] 0 (.str "zz")).1 = .typeError
+    ∧ (getByIdM false false [7] [(7, .comps [⟨true, .none, 1⟩, ⟨true, .str "a", 2⟩])] 10 (.str "zz")).1 = .ret none := by
+  decide
+
+/-- a document refuses the empty id, whatever it contains -/
+theorem c11_get_empty_id_document (k : Bool) (names : List Nat) (vals : List (Nat × MVal)) (wc : Nat) :
+    getByIdM true k names vals wc (.str "") = (.ret none, wc) := by
+  simp [getByIdM]
+
+/-- **the answer does not depend on the call history** (`warn_count`), for sortable ids or the repaired tree:
+    the n-th identical query answers like the first -/
+theorem c11_get_history_independent (doc k : Bool) (names : List Nat) (vals : List (Nat × MVal)) (wc : Nat) (s : String)
+    (hok : holderOK vals names = true)
+    (hs : k = true ∨ unsortable ((visible vals names).map (·.id)) = false) :
+    (getByIdM doc k names vals wc (.str s)).1 = (getByIdM doc k names vals 0 (.str s)).1 := by
+  by_cases hex : ∃ c ∈ visible vals names, c.id = .str s
+  · obtain ⟨c, hc, hid⟩ := hex
+    by_cases hask : askable doc (.str s)
+    · obtain ⟨d, h1, _, h3⟩ := c11_get_complete doc k names vals wc (.str s) hok hask c hc hid
+      obtain ⟨d', h2, _, h4⟩ := c11_get_complete doc k names vals 0 (.str s) hok hask c hc hid
+      rw [h1, h2]
+      rw [h3] at h4
+      cases h4; rfl
+    · -- a document asked for the empty id
+      simp only [askable, Classical.not_imp] at hask
+      obtain ⟨hd, hne⟩ := hask
+      subst hd
+      have he : s.isEmpty = true := by
+        by_cases he : s.isEmpty = true
+        · exact he
+        · exact absurd ⟨s, rfl, by simpa using he⟩ hne
+      simp [getByIdM, he]
+  · have hno : ∀ c ∈ visible vals names, c.id ≠ .str s := fun c hc hid => hex ⟨c, hc, hid⟩
+    rw [c11_get_none_partial doc k names vals wc s hok hno (by rcases hs with h | h; exact Or.inl h; exact Or.inr (Or.inr h))]
+    rw [c11_get_none_partial doc k names vals 0 s hok hno (by rcases hs with h | h; exact Or.inl h; exact Or.inr (Or.inr h))]
+
+/-- hypotheses are satisfiable: a document with an id-less include, two cells sharing an id in two lists, a network -/
+example : holderOK [(1, .comps [⟨false, .none, 1⟩]), (2, .comps [⟨true, .str "a", 2⟩]), (3, .comps [⟨true, .str "a", 3⟩]), (4, .none), (5, .chars 3)]
+    [1, 2, 3, 4, 5] = true ∧ askable true (.str "a")
+    ∧ (getByIdM true false [1, 2, 3, 4, 5]
+        [(1, .comps [⟨false, .none, 1⟩]), (2, .comps [⟨true, .str "a", 2⟩]), (3, .comps [⟨true, .str "a", 3⟩]), (4, .none), (5, .chars 3)]
+        0 (.str "a")).1 = .ret (some ⟨true, .str "a", 2⟩) := by
+  refine ⟨by decide, fun _ => ⟨"a", rfl, by decide⟩, by decide⟩
 
 /-! ### per-run obligations on today's tables -/
 open NmlVerif.Gen.Names NmlVerif.Gen.Bindings
